@@ -237,6 +237,13 @@ impl Prop for C02 {
                     timeout: Duration::from_secs(900),
                     what: "every third program of the tree set as the second statement after a string literal that carries k = 1, 2, 3, 5, 8 more bytes than characters (whatever indexes the text by characters where it should use bytes, or the reverse, is off by k behind it)".into(),
                 },
+                Stage {
+                    name: "schedules".into(),
+                    len: super::c13::grouping_workloads().len() as u64,
+                    chunk: 1,
+                    timeout: Duration::from_secs(900),
+                    what: "parses whose grouping depends on an operator racing a re-registration of that operator with the precedence and associativity it already has, under the controlled scheduler: all schedules with <= 2 (3) preemptions; every parse must give a tree that some sequential order gives (there is only one)".into(),
+                },
             ],
             rule: format!(
                 "(a) every AST with <= {} infix nodes over all 32 built-in infix operators in every shape, plus every AST with <= 3 operator nodes over 15 representative infix operators, `not OP`, prefix, postfix, conditional, call, list, map, and two-statement chains; \
@@ -256,6 +263,14 @@ impl Prop for C02 {
     }
     fn run(&self, tier: Tier, stage: usize, a: u64, b: u64, out: &mut WorkerOut) {
         let ops = OpSet::builtin();
+        if stage == 6 {
+            let ws = super::c13::grouping_workloads();
+            for i in a..b {
+                out.at(i);
+                super::c13::check_workload(&ws[i as usize], tier.pick(2, 3), Duration::from_secs(tier.pick(60, 600)), out);
+            }
+            return;
+        }
         if stage == 0 {
             let progs = programs(tier);
             for i in a..b {
@@ -377,6 +392,9 @@ impl Prop for C02 {
         out.count("transitions", b - a);
     }
     fn case_text(&self, tier: Tier, stage: usize, i: u64) -> String {
+        if stage == 6 {
+            return super::c13::grouping_workloads()[i as usize].name.to_string();
+        }
         if stage == 0 {
             let ops = OpSet::builtin();
             return show(&parse::print(&programs(tier)[i as usize], &ops, Parens::Minimal));
